@@ -11,6 +11,7 @@ func TestMain(m *testing.M) { harn.Main(m) }
 func init() {
 	harn.Register("C10_ServerNeg", RunSrvNeg)
 	harn.Register("C10_ClientNeg", RunCliNeg)
+	harn.Register("C10_SessionNeg", RunSessNeg)
 	harn.Register("C09_Seq", RunSeq)
 	harn.Register("C09_Conc", RunConc)
 }
@@ -20,6 +21,7 @@ func TestRegress(t *testing.T) { harn.Regress(t) }
 
 func TestC10_ServerNeg(t *testing.T) { harn.Check(t, "C10_ServerNeg", GenSrvNeg, RunSrvNeg) }
 func TestC10_ClientNeg(t *testing.T) { harn.Check(t, "C10_ClientNeg", GenCliNeg, RunCliNeg) }
+func TestC10_SessionNeg(t *testing.T) { harn.Check(t, "C10_SessionNeg", GenSessNeg, RunSessNeg) }
 func TestC09_Seq(t *testing.T)       { harn.Check(t, "C09_Seq", GenSeq, RunSeq) }
 func TestC09_Conc(t *testing.T)      { harn.Check(t, "C09_Conc", GenConc, RunConc) }
 
